@@ -96,7 +96,7 @@ func famLegit(r *Rng, o *Out, tier string) {
 	}
 	for i := 0; i < n; i++ {
 		key := r.Bytes(32)
-		kid := r.Bytes(pick(r, []int{1, 8, 16}))
+		kid := r.Bytes(pick(r, []int{1, 8, 16, 0, 300})) // (also the empty, non-nil key-id: a legal value for New)
 		loc := pick(r, []string{"https://api.fly.io/v1", "loc", ""})
 		var tok *macaroon.Macaroon
 		var err error
